@@ -62,6 +62,38 @@ claim(
     "DESIGN.md §2 C20",
 )
 
+claim(
+    "C11",
+    "while-loop progress analysis (exit-relevant vs iteration-constant names on every back-edge path), "
+    "ranking-idiom recognition, infinite-iterator bounding, unchanged-argument recursion",
+    "Sound detector of loops that cannot make progress: for every `while` in the package (complete "
+    "enumeration), on every path to the back edge some exit-relevant, non-iteration-constant name must be "
+    "updated; otherwise the loop repeats one state forever. Loops with a recognised ranking idiom are "
+    "proved terminating; the rest are listed as unproved (not reported). Infinite iterators must be "
+    "bounded; self-recursion must change an argument.",
+    "Assumes loop tests/guards are side-effect free (allow-list checked), library calls terminate, and "
+    "Python's recursion limit bounds recursion. 'Time proportional to input size' is NOT decided. "
+    "Value-level non-termination (an update that happens to be zero) is not decided.",
+    "DESIGN.md §2 C11",
+)
+
+claim(
+    "C10",
+    "hash-order taint analysis (set-typed expression inference, inter-procedural parameter/return "
+    "propagation, context classification), mutable-default write-through, module-state writes, "
+    "constant-folded cross-module table writes, non-deterministic API inventory",
+    "Decides, for the three sources the property names (hash seed, call count, call history): no set / "
+    "keys()-algebra iteration order reaches an ordered result (taint with order-free contexts enumerated); "
+    "no mutable default argument is written through; no function writes module-level state; import-time "
+    "writes into another module's table are idempotent w.r.t. the owner's own table; no random/time/uuid/"
+    "id/hash API on any path. Complete for the recognised set-typed sources; a set reaching the code "
+    "through an opaque value (e.g. a parameter never passed a set inside the package) is not seen.",
+    "Trusted: the order-free context table in sa/setorder.py; one symbol-wide suppression "
+    "(_join_non_none: key order inside a ParamVal is never observed). Environment variables read at "
+    "import are configuration. File-system listing order is reported as a note only.",
+    "DESIGN.md §2 C10",
+)
+
 
 def main():
     """write MANIFEST.json"""
